@@ -1,5 +1,5 @@
 //! Scenario generators. Everything that varies is drawn from the world's choice stream.
-use crate::common::{boot_server, content, Sandbox, ServerCfg};
+use crate::common::{boot_server, content, content_with_zero_runs, Sandbox, ServerCfg};
 use crate::peers::{Adv, Reader, Writer, XferCfg};
 use crate::world::{FaultCfg, Ns, World, MS, SEC};
 use crate::xfer_mon::{Kind, Rules, XferMon, XferSpec};
@@ -289,6 +289,7 @@ pub fn xfer(prop: &'static str, tier: Tier, w: &Arc<World>) -> Scn {
     let mut srv = ServerCfg::new(&dir);
     srv.single_port = d.chance("swarm.single_port", 1, 3);
     srv.v6 = d.chance("swarm.ipv6", 1, 8);
+    srv.arg_rot = d.range("swarm.arg_rotation", 8) as usize;
     let dupn: u64 = if d.chance("swarm.dup", 1, 6) { 1 + d.range("swarm.dup.n", 2) as u64 } else { 0 };
     if dupn > 0 {
         srv.dup = Some(dupn.to_string());
@@ -329,6 +330,49 @@ pub fn xfer(prop: &'static str, tier: Tier, w: &Arc<World>) -> Scn {
         len = 65536 * 8 + d.pick("swarm.wrap.extra", &[5usize, 0, 8, 30]);
         wrap_class = true;
     }
+    let mut stray_at: Option<(u64, u8)> = None;
+    if prop == "C02" && d.chance("swarm.wrap_class", 1, if tier == Tier::Thorough { 900 } else { 3500 }) {
+        // uploads across the 16-bit wrap with a stray packet in the middle of the window that holds block 65536
+        let wz = d.pick("swarm.wrap.windowsize", &[48u64, 3, 5, 100, 16, 7]);
+        oc0.opts = vec![("blksize".into(), "8".into()), ("windowsize".into(), wz.to_string())];
+        oc0.b = 8;
+        oc0.w = wz;
+        oc0.tmo_s = 5;
+        len = (65536 + 2 * wz as usize) * 8 + 3;
+        stray_at = Some((65535 + d.range("swarm.wrap.stray_after", 3) as u64, d.range("swarm.wrap.stray_kind", 3) as u8));
+        wrap_class = true;
+    }
+    if prop == "C08" && d.chance("swarm.wrap_class", 1, if tier == Tier::Thorough { 900 } else { 3500 }) {
+        // cumulative ACKs for a window that crosses the 65535 -> 0 roll-over
+        kind = Kind::Download;
+        let wz = d.pick("swarm.wrap.windowsize", &[4u64, 2, 8, 16, 64, 3]);
+        oc0.opts = vec![("blksize".into(), "8".into()), ("windowsize".into(), wz.to_string())];
+        oc0.b = 8;
+        oc0.w = wz;
+        oc0.tmo_s = 5;
+        len = (65536 + wz as usize) * 8 + 5;
+        wrap_class = true;
+    }
+    if (prop == "C08" || prop == "C01") && !wrap_class && !full_window && d.chance("swarm.huge_window_bytes", 1, if tier == Tier::Thorough { 1500 } else { 6000 }) {
+        // windowsize x blksize beyond 32 MiB: the acknowledged window is still the one that is used
+        kind = Kind::Download;
+        oc0.opts = vec![("blksize".into(), "8192".into()), ("windowsize".into(), "5000".into())];
+        oc0.b = 8192;
+        oc0.w = 5000;
+        oc0.tmo_s = 5;
+        len = 8192 * 5200 + 77;
+        full_window = true;
+    }
+    if prop == "C07" && d.chance("swarm.wrap_class", 1, if tier == Tier::Thorough { 900 } else { 3500 }) {
+        // the final block may sit in a window that crosses the 65535 -> 0 roll-over
+        let wz = d.pick("swarm.wrap.windowsize", &[4u64, 2, 8, 16, 3]);
+        oc0.opts = vec![("blksize".into(), "8".into()), ("windowsize".into(), wz.to_string())];
+        oc0.b = 8;
+        oc0.w = wz;
+        oc0.tmo_s = 5;
+        len = (65535 + d.range("swarm.wrap.blocks_past", 4) as usize) * 8 + d.pick("swarm.wrap.extra", &[4usize, 0, 7]);
+        wrap_class = true;
+    }
     let mut oc = oc0;
     for o in oc.opts.iter_mut() {
         if o.0 == "tsize" {
@@ -337,7 +381,7 @@ pub fn xfer(prop: &'static str, tier: Tier, w: &Arc<World>) -> Scn {
     }
     let mut xc_no_resend = false;
     let salt = 1 + d.range("swarm.content.salt", 250) as u64;
-    let data = Arc::new(content(len, salt));
+    let data = Arc::new(if (prop == "C01" || prop == "C02") && d.chance("swarm.content.zero_runs", 1, 8) { content_with_zero_runs(len, salt, oc.b) } else { content(len, salt) });
     let fname = "data.bin";
     let path = dir.join(fname);
     if kind == Kind::Download {
@@ -365,6 +409,7 @@ pub fn xfer(prop: &'static str, tier: Tier, w: &Arc<World>) -> Scn {
     if xc_no_resend {
         xc.resend_request = false;
     }
+    xc.stray_after_block = stray_at;
     if wrap_class || full_window {
         // a reader that acknowledges every block of a 4096-block window makes the sender resend the
         // whole window 4096 times (legal, quadratic): not what these long runs are about
@@ -491,6 +536,16 @@ pub fn xfer(prop: &'static str, tier: Tier, w: &Arc<World>) -> Scn {
             if mode >= 2 {
                 faultfree = mode == 2;
             }
+            if wrap_class {
+                xc.script.clear();
+                xc.die_after_blocks = None;
+                conformant = true;
+                fc.fate_w = [1, 0, 0, 0, 0, 0];
+                fc.budget = 0;
+                fc.recv_err_w = 0;
+                fc.send_err_w = 0;
+                faultfree = true;
+            }
         }
         "C08" => {
             rules.c08 = true;
@@ -512,12 +567,16 @@ pub fn xfer(prop: &'static str, tier: Tier, w: &Arc<World>) -> Scn {
                     }
                 }
             }
-            if full_window {
+            if full_window && oc.w == 65535 {
                 conformant = false;
                 xc.script.clear();
                 xc.script.push((2 + d.range("swarm.full_window.step", 2), Adv::AckDup));
             }
-            if !full_window && d.chance("swarm.faults", 1, 2) {
+            if wrap_class || (full_window && oc.w != 65535) {
+                conformant = true;
+                xc.script.clear();
+            }
+            if !full_window && !wrap_class && d.chance("swarm.faults", 1, 2) {
                 fc.fate_w = [24, 2, 2, 2, 1, 3];
                 fc.budget = 1 + d.range("swarm.fault.budget", budget_max);
                 fc.late_w = if d.chance("swarm.fault.lateness", 1, 3) { [2, 1, 1] } else { [1, 0, 0] };
@@ -533,6 +592,14 @@ pub fn xfer(prop: &'static str, tier: Tier, w: &Arc<World>) -> Scn {
     fc.spare_requests = true;
     if !wrap_class && !full_window && len < 300_000 {
         light_sched(&d, &mut fc);
+    }
+    if (wrap_class && prop == "C02") || (full_window && oc.w == 5000) {
+        // long runs: only the one thing they are about (the stray packet / the window size), no random faults
+        fc.fate_w = [1, 0, 0, 0, 0, 0];
+        fc.budget = 0;
+        fc.recv_err_w = 0;
+        fc.send_err_w = 0;
+        xc.script.clear();
     }
     let desc = format!(
         "{:?} {} len={} blocks={} opts={:?} dup={} peer[timeout={}ms per_block={} gap_ack={} eager={} dally={} script={:?}] faults[budget={} fates={:?} recv_err={} stall={}]",
